@@ -347,6 +347,8 @@ def decl_cells():
     """declaration-level rules: each (violating program, repaired program)"""
     S = SUPPORT
     pairs = {
+        "super-call-of-bodyless-method": ("abstract class Fa { public constructor() -> Fa = default; public virtual function g() -> int; }\nclass Ha extends Fa { public constructor() -> Ha { super(); } public override function g() -> int { return super.g() + 1; } }",
+                                          "abstract class Fa { public constructor() -> Fa = default; public virtual function g() -> int { return 1; } }\nclass Ha extends Fa { public constructor() -> Ha { super(); } public override function g() -> int { return super.g() + 1; } }"),
         "return-value-in-void-function": ("function v() -> void { return 1; }", "function v() -> void { return; }"),
         "bare-return-in-int-function": ("function v() -> int { return; }", "function v() -> int { return 1; }"),
         # cells that the unchanged tree gets wrong and that are recorded as open known findings (known_findings.jsonl)
